@@ -36,7 +36,9 @@ RULE = ("real thread-mode runs (modes: plain; poke = a foreign thread calls end_
         "current_global_cost / replication_metrics / stop_agents(grace 0..0.2 s) / wait_ready during the run; "
         "timeout = run(timeout=0.6) ended by the library's Timer thread; half of the mgm/dsa runs are "
         "resilient = replication dist_ucs_hostingcosts, level 1..2; 2/3 of the other runs get a scenario "
-        "removing an idle agent, as first event or after a delay event): 3-5 variables, algorithm dpop / mgm(stop_cycle 3-8) / dsa(stop_cycle), "
+        "removing an idle agent, as first event or after a delay event; error = a scenario event with an "
+        "unsupported action makes a management handler raise while run(timeout=0.6) expires; adsa runs "
+        "(periodic actions of the algorithm itself) use poke or timeout): 3-5 variables, algorithm dpop / mgm(stop_cycle 3-8) / dsa(stop_cycle), "
         "distribution oneagent/adhoc/random, collect mode value_change/cycle_change/period(0.01-0.05s), "
         "switch interval 1e-6..5e-3 s, random sleeps <= 0.5 ms in 5% of the callbacks; "
         "non-trivial = at least 20 recorded callbacks on at least 3 threads; distinct = distinct case JSON")
@@ -66,7 +68,7 @@ def gen(rng, n, tier):
     cases = []
     for i in range(n):
         nv = rng.randint(3, 5)
-        algo = rng.choice(["dpop", "mgm", "dsa", "dpop", "mgm"])
+        algo = rng.choice(["dpop", "mgm", "dsa", "dpop", "mgm", "adsa"])
         spec = rt.gen_dcop_spec(rng, nv, p_ternary=0.0 if algo != "dpop" else 0.15, p_hard=0.0)
         dist = rng.choice(["oneagent", "adhoc", "random"])
         params = {}
@@ -77,9 +79,15 @@ def gen(rng, n, tier):
         # run is going on: the read accessors, wait_ready and stop_agents with a grace period too
         # short for the agents to stop (mgm / dsa then run without stop condition so that
         # computations are still running).  timeout: the run is ended by the library's own Timer.
-        mode = rng.choice(["plain", "poke", "poke", "timeout"])
+        # error: the first scenario event has an unsupported action, so a handler of the management
+        # computation raises (its error path calls stop_agents(10) from the orchestrator thread)
+        # while run(timeout=0.6) makes the library's Timer thread call stop_agents(5) as well
+        mode = rng.choice(["plain", "poke", "poke", "timeout", "timeout", "error"])
         if algo in ("mgm", "dsa") and mode != "plain":
             params = {}
+        if algo == "adsa":          # the only algorithm with periodic actions of its own; never stops
+            params = {"period": rng.choice([0.02, 0.05, 0.1])}
+            mode = rng.choice(["poke", "timeout"])
         # resilient: agents host a replication computation, which registers discovery callbacks on
         # agent events (fired when agents come and go); DPOP has no footprint, so mgm / dsa only
         resilient = algo in ("mgm", "dsa") and rng.random() < 0.5
@@ -87,6 +95,8 @@ def gen(rng, n, tier):
         # event, either as the first event (injected by the thread that calls run()) or after a
         # delay event (injected by a threading.Timer thread); all agents get pause + resume
         scenario = None if resilient else rng.choice([None, "delay_first", "event_first"])
+        if mode == "error":
+            resilient, scenario = False, "bad_action"
         cases.append(dict(kind="real", mode=mode, grace=rng.choice([0.0, 0.05, 0.2]),
                           resilient=resilient, k=rng.randint(1, 2), scenario=scenario,
                           spec=spec, algo=algo, params=params, dist=dist,
@@ -148,8 +158,12 @@ def _real(case):
         mapping[idle] = []
         dist = Distribution(mapping)
         removal = DcopEvent("e1", actions=[EventAction("remove_agent", agent=idle)])
-        events = ([DcopEvent("d1", delay=0.2), removal] if scen == "delay_first"
-                  else [removal, DcopEvent("d1", delay=0.2)])
+        if scen == "bad_action":
+            events = [DcopEvent("e0", actions=[EventAction("no_such_action", agent=idle)])]
+        elif scen == "delay_first":
+            events = [DcopEvent("d1", delay=0.2), removal]
+        else:
+            events = [removal, DcopEvent("d1", delay=0.2)]
         scenario = Scenario(events)
     tt = rt.ThreadTrace(jitter if case["jitter"] else None).install()
     from pydcop.infrastructure.run import run_local_thread_dcop
@@ -180,7 +194,7 @@ def _real(case):
             res["replication_ready"] = orch.mgt.ready_to_run.wait(30)   # bounded, unlike wait_ready()
         if mode == "poke":
             threading.Thread(target=poker, name="c21-user", daemon=True).start()
-        orch.run(scenario, timeout=0.6 if mode == "timeout" else RUN_TIMEOUT)
+        orch.run(scenario, timeout=0.6 if mode in ("timeout", "error") else RUN_TIMEOUT)
         res["status"] = orch.status
         res["elapsed"] = time.time() - t0
     finally:
@@ -239,7 +253,7 @@ def _main_only_in_orch_start(o):
 def oracle(case, o):
     if "error" in o:
         return "run failed: %s %s" % (o["error"], o.get("detail", ""))
-    if o["status"] != "OK" and case["algo"] == "dpop" and case.get("mode", "plain") != "timeout":
+    if o["status"] != "OK" and case["algo"] == "dpop" and case.get("mode", "plain") not in ("timeout", "error"):
         return "run ended with status %s" % o["status"]
     v = _violations(o)
     if v:
